@@ -99,7 +99,7 @@ def _seeded(prop):
         except Exception:
             continue
         det = m.get("detected_by", "")
-        props = {x.split("[")[0] for x in det.split()}
+        props = {x.split("[")[0] for x in det.split() if "ANALYSIS-ERROR" not in x}
         if prop in props or m.get("breaks_property") == prop:
             out.append(("seeded/" + m["id"], os.path.join(os.path.dirname(meta_p), "patch.diff"), None))
     return out
